@@ -135,6 +135,7 @@ class Ctx:
                         "functions_with_rewrites": len([k_ for k_ in getattr(prog, "expanded", {}) if k_ != "!errors"]),
                         "rewrite_errors": [list(x) for x in getattr(prog, "expanded", {}).get("!errors", [])][:10],
                         "stored_conditions_threaded": sum(v for k_, v in getattr(prog, "threaded", {}).items() if k_ != "!errors"),
+                        "types_renamed_back": dict(sorted(getattr(prog, "renamed_types", {}).items())[:20]),
                         "functions_renamed_back": dict(sorted(getattr(prog, "renamed_fns", {}).items())[:20]),
                         "fields_renamed_back": {k_: v for k_, v in sorted(getattr(prog, "renamed_fields", {}).items())[:20]},
                     },
